@@ -9,7 +9,7 @@ import (
 // Mutate applies one structure-aware mutation. lenFields are offsets of 2-byte option length fields in b.
 func Mutate(r *rand.Rand, b []byte, lenFields []int, other []byte) []byte {
 	out := append([]byte{}, b...)
-	switch r.IntN(11) {
+	switch r.IntN(13) {
 	case 0:
 		if len(out) > 0 {
 			out = out[:r.IntN(len(out))]
@@ -71,6 +71,20 @@ func Mutate(r *rand.Rand, b []byte, lenFields []int, other []byte) []byte {
 		if len(out) > 0 {
 			out[0] = []byte{1, 2, 3, 7, 11, 12, 13, 0, 255}[r.IntN(9)]
 		}
+	case 11, 12: // resize one option (at any nesting depth) and keep every enclosing length consistent
+		if len(lenFields) > 0 {
+			p := lenFields[r.IntN(len(lenFields))]
+			if p+2 <= len(out) {
+				v := int(out[p])<<8 | int(out[p+1])
+				nl := r.IntN(41)
+				if r.IntN(3) == 0 {
+					nl = max(0, v+r.IntN(9)-4)
+				}
+				if x := Resize(out, lenFields, p, nl, func(n int) []byte { return gen4.Bytes(r, n) }); x != nil {
+					out = x
+				}
+			}
+		}
 	case 10: // insert a compression pointer / reserved label somewhere
 		if len(out) > 6 {
 			i := 4 + r.IntN(len(out)-4)
@@ -79,6 +93,41 @@ func Mutate(r *rand.Rand, b []byte, lenFields []int, other []byte) []byte {
 	}
 	if len(out) > 4096 {
 		out = out[:4096]
+	}
+	return out
+}
+
+// Resize gives the option whose 2-byte length field is at offset p a value of exactly nl bytes (cut, or extended
+// with fill bytes) and adds the difference to the length field of every option that contains it, so that the only
+// thing wrong (if anything) with the result is that one option's own length.  lenFields are all length-field offsets of b.
+// It returns nil when a length would leave the 16-bit range.
+func Resize(b []byte, lenFields []int, p int, nl int, fill func(n int) []byte) []byte {
+	if p+2 > len(b) || nl < 0 || nl > 0xffff {
+		return nil
+	}
+	v := int(b[p])<<8 | int(b[p+1])
+	end := p + 2 + v
+	if end > len(b) {
+		return nil
+	}
+	out := append([]byte{}, b[:p+2+min(v, nl)]...)
+	if nl > v {
+		out = append(out, fill(nl-v)...)
+	}
+	out = append(out, b[end:]...)
+	out[p], out[p+1] = byte(nl>>8), byte(nl)
+	for _, q := range lenFields {
+		if q >= p || q+2 > len(b) {
+			continue
+		}
+		qv := int(b[q])<<8 | int(b[q+1])
+		if q+2+qv >= end && q+2 <= p { // q's value contains the resized option
+			nq := qv + nl - v
+			if nq < 0 || nq > 0xffff {
+				return nil
+			}
+			out[q], out[q+1] = byte(nq>>8), byte(nq)
+		}
 	}
 	return out
 }
